@@ -11,6 +11,10 @@ class PEError(Exception):
     pass
 
 
+class PEIndexError(PEError):
+    """the interpreted code indexes outside an array: a property of the code, not a limitation of the interpreter"""
+
+
 def ev(e, env):
     key = A.show(e)
     if key in env:
@@ -77,3 +81,146 @@ def ev(e, env):
     if t == "other" and e[1] in ("CXXStaticCastExpr",):
         raise PEError("cast")
     raise PEError("cannot evaluate %s" % key[:60])
+
+
+class Exec:
+    """Small abstract machine for index-bookkeeping code: integer/rational scalars, arrays (python lists keyed by the printed
+    base expression), ++/-- side effects, assignments, if/else, for loops with constant trip counts.  Anything else raises
+    PEError (the caller reports analysis-broken)."""
+
+    def __init__(self, env, arrays, sizes=None, max_steps=100000):
+        self.env = dict(env)          # scalar name -> Fraction
+        self.arrays = arrays          # printed base expr -> list
+        self.sizes = sizes or {}      # printed base expr -> size (for .size())
+        self.steps = 0
+        self.max_steps = max_steps
+
+    def key(self, base):
+        return A.show(base)
+
+    def val(self, e):
+        t = e[0]
+        if t == "call" and isinstance(e[1], str) and e[1] in self.arrays and len(e[2]) == 1:
+            e = ("sub", ("ref", e[1], None), e[2])      # Eigen element access v(i) on a dependent type
+            t = "sub"
+        if t == "num":
+            return Fraction(e[1])
+        if t == "ref":
+            if e[1] in self.env:
+                return self.env[e[1]]
+            raise PEError("unknown scalar %s" % e[1])
+        if t == "member":
+            if e[2] in self.env:
+                return self.env[e[2]]
+            raise PEError("unknown member %s" % e[2])
+        if t == "un":
+            op = e[1]
+            if op in ("++post", "--post", "++", "--") and e[2][0] == "ref":
+                old = self.env[e[2][1]]
+                self.env[e[2][1]] = old + (1 if op.startswith("++") else -1)
+                return old if op.endswith("post") else self.env[e[2][1]]
+            if op == "!":
+                return Fraction(int(not self.val(e[2])))
+            raise PEError("unary %s" % op)
+        if t == "neg":
+            return -self.val(e[1])
+        if t == "mcall" and e[2] == "size" and not e[4]:
+            k = self.key(e[1])
+            if k in self.sizes:
+                return Fraction(self.sizes[k])
+            if k in self.arrays:
+                return Fraction(len(self.arrays[k]))
+            raise PEError("size of unknown %s" % k)
+        if t == "sub" and len(e[2]) == 1:
+            k = self.key(e[1])
+            i = int(self.val(e[2][0]))
+            if k not in self.arrays:
+                raise PEError("unknown array %s" % k)
+            if not (0 <= i < len(self.arrays[k])):
+                raise PEIndexError("index %d out of range of %s (size %d)" % (i, k, len(self.arrays[k])))
+            return self.arrays[k][i]
+        if t == "op":
+            op = e[1]
+            if op == "=":
+                v = self.val(e[3])
+                self.assign(e[2], v)
+                return v
+            if op in ("+=", "-="):
+                v = self.val(e[3])
+                cur = self.val(e[2]) if e[2][0] != "sub" else self.val(e[2])
+                nv = cur + v if op == "+=" else cur - v
+                self.assign(e[2], nv)
+                return nv
+            if op == "||":
+                return Fraction(int(bool(self.val(e[2])) or bool(self.val(e[3]))))     # short-circuit
+            if op == "&&":
+                return Fraction(int(bool(self.val(e[2])) and bool(self.val(e[3]))))
+            a, b = self.val(e[2]), self.val(e[3])
+            if op in ("+", "-", "*"):
+                return {"+": a + b, "-": a - b, "*": a * b}[op]
+            if op == "/":
+                if b == 0:
+                    raise PEError("division by zero")
+                return a / b
+            if op in ("<", "<=", ">", ">=", "==", "!="):
+                return Fraction(int({"<": a < b, "<=": a <= b, ">": a > b, ">=": a >= b, "==": a == b, "!=": a != b}[op]))
+            raise PEError("operator %s" % op)
+        if t == "ctor" and len(e[2]) == 1:
+            return self.val(e[2][0])
+        raise PEError("cannot evaluate %s" % A.show(e)[:60])
+
+    def assign(self, lhs, v):
+        if lhs[0] == "call" and isinstance(lhs[1], str) and lhs[1] in self.arrays and len(lhs[2]) == 1:
+            lhs = ("sub", ("ref", lhs[1], None), lhs[2])
+        if lhs[0] == "ref":
+            self.env[lhs[1]] = v
+        elif lhs[0] == "sub" and len(lhs[2]) == 1:
+            k = self.key(lhs[1])
+            i = int(self.val(lhs[2][0]))
+            if k not in self.arrays:
+                raise PEError("unknown array %s" % k)
+            if not (0 <= i < len(self.arrays[k])):
+                raise PEIndexError("store index %d out of range of %s (size %d)" % (i, k, len(self.arrays[k])))
+            self.arrays[k][i] = v
+        else:
+            raise PEError("cannot assign to %s" % A.show(lhs)[:40])
+
+    def run(self, stmt):
+        self.steps += 1
+        if self.steps > self.max_steps:
+            raise PEError("step limit")
+        k = stmt.get("kind")
+        ks = A.kids(stmt)
+        if k == "CompoundStmt":
+            for c in ks:
+                self.run(c)
+        elif k == "DeclStmt":
+            for v in ks:
+                if v.get("kind") == "VarDecl" and A.kids(v):
+                    self.env[v.get("name")] = self.val(A.to_expr(A.kids(v)[-1]))
+        elif k == "ForStmt":
+            init, _cv, cond, inc, body = (ks + [None] * 5)[:5]
+            if init is not None and init.get("kind"):
+                self.run(init)
+            while bool(self.val(A.to_expr(cond))):
+                self.run(body)
+                self.val(A.to_expr(inc))
+                self.steps += 1
+                if self.steps > self.max_steps:
+                    raise PEError("step limit")
+        elif k == "IfStmt":
+            if bool(self.val(A.to_expr(ks[0]))):
+                self.run(ks[1])
+            elif len(ks) > 2:
+                self.run(ks[2])
+        elif k in ("BinaryOperator", "CompoundAssignOperator", "CXXOperatorCallExpr", "UnaryOperator"):
+            self.val(A.to_expr(stmt))
+        elif k in TRANSPARENT_STMT:
+            self.run(ks[0])
+        elif k is None or k == "NullStmt":
+            return
+        else:
+            raise PEError("unsupported statement kind %s" % k)
+
+
+TRANSPARENT_STMT = {"ExprWithCleanups", "ImplicitCastExpr", "ParenExpr"}
